@@ -41,7 +41,9 @@ type Msg struct {
 	AVPs []AVP `json:"avps"`
 }
 
-func B4(v uint32) []int { return []int{int(v >> 24), int(v >> 16 & 255), int(v >> 8 & 255), int(v & 255)} }
+func B4(v uint32) []int {
+	return []int{int(v >> 24), int(v >> 16 & 255), int(v >> 8 & 255), int(v & 255)}
+}
 func B3(v uint32) []int { return []int{int(v >> 16 & 255), int(v >> 8 & 255), int(v & 255)} }
 func U32(b []int) uint32 {
 	var v uint32
